@@ -79,12 +79,17 @@ def ref_dt(bounds, g, psd, diss, ratio, curr):
 
 
 # ---------------------------------------------------------------- growth fields
-def growth_fields(bounds, n, scale):
+def growth_fields(bounds, n, scale, mixed_upto=2):
     """Per-face sign patterns (all 3^(n+1)) with one magnitude, plus physical a(1/R* - 1/R)/R laws with R* below,
     inside each class and above the grid, plus all-zero."""
     out = []
     for pat in itertools.product((-1, 0, 1), repeat=n + 1):
         out.append(('sign' + ''.join('-0+'[p + 1] for p in pat), [p * scale for p in pat]))
+    if n <= mixed_upto:
+        # unequal magnitudes: every face independently 1x or 10x (patterns with at least one 10x and one non-zero 1x)
+        for pat in itertools.product((-10, -1, 0, 1, 10), repeat=n + 1):
+            if any(abs(p) == 10 for p in pat) and any(abs(p) == 1 for p in pat):
+                out.append(('mag' + ','.join(str(p) for p in pat), [p * scale for p in pat]))
     lo, hi = bounds[0], bounds[-1]
     rstars = [0.5 * lo] + [0.5 * (bounds[k] + bounds[k + 1]) for k in range(n)] + [bounds[1], 2 * hi]
     for j, rs in enumerate(rstars):
@@ -123,7 +128,7 @@ def run_group(case):
     bounds = [float(b) for b in pbm.PSDbounds]
     dR = bounds[1] - bounds[0]
     gscale = dR  # growth of one class width per second
-    fields = growth_fields(bounds, n, gscale)
+    fields = growth_fields(bounds, n, gscale, case.get('mixed_upto', 2))
     radii = nuc_radii(bounds)
     rest = list(itertools.product(pops, repeat=n - 1))
     nontriv = 0
@@ -194,14 +199,45 @@ def run_group(case):
                     nev += 1
                     if psd_in.tobytes() != psd.tobytes() or g_in.tobytes() != g.tobytes():
                         bad('mutated-input', 'correctdXdtEuler', 'psd or flux argument modified')
-                    L = ref_limit(F, psd_l, dt)
+                    # ---- property-level oracle for the corrected fluxes (observed through pbm._netFlux, read-only)
+                    Fc = [float(v) for v in pbm._netFlux]
                     k = ref_nuc_class(bounds, r)
-                    exp = [L[i] - L[i + 1] + (rate if i == k else 0.0) for i in range(n)]
-                    lscale = max([abs(x) for x in L] + [1e-300]) + rate
+                    exp = [Fc[i] - Fc[i + 1] + (rate if i == k else 0.0) for i in range(n)]
+                    lscale = max([abs(x) for x in F] + [1e-300]) + rate
+                    det = 'n=%d/%s/mult=%g' % (n, fname, mult)
+                    ctx_msg = 'psd=%r g=%r dt=%r F=%r corrected=%r' % (psd_l, g_l, dt, F, Fc)
                     if not all(close(float(dc[i]), exp[i], lscale) for i in range(n)):
-                        bad('limiter', 'n=%d/%s/mult=%g' % (n, fname, mult),
-                            'corrected dXdt=%r expected %r psd=%r g=%r dt=%r' % (dc.tolist(), exp, psd_l, g_l, dt))
-                    # no face carries more than its donor class holds (from the returned rates, rate=0 case)
+                        bad('corrected-not-conservative', det, 'returned dXdt is not the difference of the corrected face fluxes + nucleation: ' + ctx_msg)
+                    tol = 4 * np.finfo(float).eps
+                    out = [0.0] * n
+                    for i in range(n + 1):
+                        if Fc[i] * F[i] < 0 or abs(Fc[i]) > abs(F[i]) * (1 + tol):
+                            bad('limiter-changed-sign-or-grew', det, 'face %d: %r -> %r; ' % (i, F[i], Fc[i]) + ctx_msg)
+                        donor = (i - 1) if Fc[i] > 0 else (i if Fc[i] < 0 else None)
+                        if donor is not None and 0 <= donor < n:
+                            if abs(Fc[i]) * dt > psd_l[donor] * (1 + tol):
+                                bad('face-carries-more-than-donor', det, 'face %d carries %r*dt > donor class %d holding %r; ' % (i, Fc[i], donor, psd_l[donor]) + ctx_msg)
+                            out[donor] += abs(Fc[i])
+                        elif donor is not None and Fc[i] != 0:
+                            bad('flux-from-outside-grid', det, 'face %d: %r; ' % (i, Fc[i]) + ctx_msg)
+                    # a face is only reduced when its donor class would otherwise be over-drawn, and a limited class
+                    # ends (numerically) empty through the limited face(s): no spurious or excessive limiting
+                    uout = [0.0] * n
+                    for i in range(n + 1):
+                        donor = (i - 1) if F[i] > 0 else (i if F[i] < 0 else None)
+                        if donor is not None and 0 <= donor < n:
+                            uout[donor] += abs(F[i])
+                    for i in range(n + 1):
+                        donor = (i - 1) if F[i] > 0 else (i if F[i] < 0 else None)
+                        if donor is None or not (0 <= donor < n):
+                            continue
+                        if abs(Fc[i]) < abs(F[i]) * (1 - tol):
+                            if uout[donor] * dt <= psd_l[donor]:
+                                bad('spurious-limiting', det, 'face %d reduced although class %d is not over-drawn; ' % (i, donor) + ctx_msg)
+                            elif out[donor] * dt < psd_l[donor] * (1 - 1e-9) and abs(Fc[i]) * dt < psd_l[donor] * (1 - 1e-9):
+                                bad('excessive-limiting', det, 'class %d limited below its content; ' % donor + ctx_msg)
+                    L = Fc
+                    # classes that obey the model's own step limit never become negative
                     if mult <= 1.0:
                         new = psd + dt * dc
                         if np.any(new < -4 * np.finfo(float).eps * pmax):
@@ -245,10 +281,11 @@ def run_grain(case):
     dt = g.getDt([d])
     dx = [d.copy()]
     g.correctdXdt(dt, x, dx)
-    L = ref_limit(F, psd_l, dt)
-    exp2 = [L[i] - L[i + 1] for i in range(n)]
-    if not all(close(float(dx[0][i]), exp2[i], fs) for i in range(n)):
-        viol.append({'sig': sig + '/limiter', 'msg': 'corrected dXdt differs from reference'})
+    new = x[0] + dt * dx[0]
+    if np.any(new < -4 * np.finfo(float).eps * float(np.max(x[0]))):
+        viol.append({'sig': sig + '/negative-under-own-limit', 'msg': 'grain size class negative after one step of the model\'s own size'})
+    if not close(float(np.sum(dx[0])), float(g.pbm._netFlux[0] - g.pbm._netFlux[-1]), n * fs):
+        viol.append({'sig': sig + '/corrected-sum', 'msg': 'corrected dXdt does not sum to the end-face fluxes'})
     return {'viol': viol, 'states': 1, 'transitions': 2, 'outcome': 'frozen' if all(v == 0 for v in gr) else 'moving'}
 
 
@@ -271,7 +308,7 @@ def run(ctx):
                     cases.append({'grid': gname, 'n': n, 'pops': pops, 'p0': p0})
             else:
                 for p0 in pops:
-                    cases.append({'grid': gname, 'n': n, 'pops': pops, 'p0': p0})
+                    cases.append({'grid': gname, 'n': n, 'pops': pops, 'p0': p0, 'mixed_upto': 2 if quick else 3})
     ctx.product_run('pbm', 'checks.c07:run_group', cases, chunksize=1)
     gc = [{'n': n, 'z': z, 'dist': d} for n in (6, 20, 50) for z in (0.0, 1e4, 2e5, 1e6, 1e8)
           for d in ('lognormal', 'narrow', 'bimodal')]
